@@ -8,7 +8,9 @@
    at the same place (unpack_injective); in a file set laid out as AddFile does (disjoint ranges)
    the file lookup returns exactly the file whose range [base, base+size] contains the position
    and none when no range does (file_of_spec, file_of_unique - the LastFile shortcut therefore
-   agrees with the search).
+   agrees with the search); every table that AddLine builds, from any offsets in any order, is
+   sorted and starts with 0, so the hypotheses above hold of every reachable table (add_lines_ok,
+   unpack_correct_reachable).
    The path from scanner offsets through AST positions, the optimizer's replacement literals,
    the compiler's source map, the nearest-lower lookup at run time and the trace construction
    in throw is decided on every run on generated layouts with independently computed expected
@@ -64,7 +66,24 @@ Theorem C16_file_of_unique :
 Proof. exact file_of_unique. Qed.
 Print Assumptions C16_file_of_unique.
 
+(* every line table AddLine can build from AddFile's [0] - any offsets, in any order - meets the
+   hypotheses of the theorems above *)
+Theorem C16_add_lines_ok :
+  forall size offs, sorted (add_lines size offs) /\ nth 0 (add_lines size offs) 1 = 0.
+Proof. exact add_lines_ok. Qed.
+Print Assumptions C16_add_lines_ok.
+
+Theorem C16_unpack_correct_reachable :
+  forall size offs off, 0 <= off ->
+  let lines := add_lines size offs in
+  exists k, (k < length lines)%nat /\
+    unpack lines off = (Z.of_nat k + 1, off - nth k lines 0 + 1) /\
+    nth k lines 0 <= off /\ (forall q, (k < q < length lines)%nat -> off < nth q lines 0).
+Proof. exact unpack_correct_reachable. Qed.
+Print Assumptions C16_unpack_correct_reachable.
+
 Example C16_table :
+  add_lines 40 [16; 31; 31; 7; 33; 40; 39] = [0; 16; 31; 33; 39] /\
   file_of [(1, 10); (12, 0); (13, 5)] 12 = Some 1%nat /\ file_of [(1, 10); (12, 0); (13, 5)] 19 = None /\
   file_of [(1, 10); (12, 0); (13, 5)] 1 = Some 0%nat /\ file_of [(1, 10); (12, 0); (13, 5)] 0 = None /\
   unpack [0; 16; 31; 33; 49; 62; 73; 75; 76; 87] 51 = (5, 3) /\
